@@ -1,7 +1,8 @@
-(* C15 - ignoring or removing a class affects that class only (pybind half; MATLAB half in C15m). *)
+(* C15 - ignoring or removing a class affects that class only. *)
 From Coq Require Import String Ascii List Bool Arith.
 From Wrap Require Import Base.Str Base.ListX Syntax.Ast Syntax.Print Inst.Model Inst.Proj
      Pybind.Items Pybind.Gen Pybind.SpecProofs Pybind.IgnoreProofs.
+From Wrap Require Matlab.Ids Matlab.Files Matlab.IgnoreProofs.
 Import ListNotations.
 Open Scope string_scope.
 Open Scope list_scope.
@@ -32,3 +33,60 @@ Example C15_nonvacuous :
                                          ic_methods := []; ic_statics := []; ic_dunders := []; ic_props := [];
                                          ic_ops := []; ic_enums := [] |}]] = true.
 Proof. reflexivity. Qed.
+
+(* ---------------- MATLAB ---------------- *)
+Module M.
+Import Matlab.Ids Matlab.Files Matlab.IgnoreProofs.
+
+(* Ignoring a namespaced class gives the id table of the input without its declaration - and the dispatch switch, the
+   routines and every id written into a .m file are functions of that table (C05), ids being positions in it: the
+   other entities keep their code and are renumbered consistently.  No global class may carry the ignored name. *)
+Theorem C15_matlab_ids_ignore_is_remove : forall nm c content, m_ignore c = [] ->
+  forallb (fun i => match i with IClass k => negb (hit nm k) | _ => true end) content = true ->
+  module_slots (set_ignore c [nm]) content content = module_slots c (rm nm content) (rm nm content).
+Proof. exact module_slots_ignore. Qed.
+Print Assumptions C15_matlab_ids_ignore_is_remove.
+
+(* the classdef files *)
+Theorem C15_matlab_classdefs_ignore_is_remove : forall nm c, m_ignore c = [] -> forall i home,
+  skeletons (set_ignore c [nm]) home i = flat_map (skeletons c home) (rm_item nm i).
+Proof. exact skeletons_ignore. Qed.
+Print Assumptions C15_matlab_classdefs_ignore_is_remove.
+
+(* collectors, _deleteAllObjects and the RTTI registry list the classes that are not ignored; for a namespaced class
+   this test and the one above spell the class the same way *)
+Theorem C15_matlab_preamble : forall nm c content, m_ignore c = [] ->
+  preamble_classes (set_ignore c [nm]) content
+  = filter (fun k => negb (String.eqb (preamble_ignore_name k) nm)) (preamble_classes c content).
+Proof. exact preamble_ignore. Qed.
+Print Assumptions C15_matlab_preamble.
+Theorem C15_matlab_names_agree : forall k, ic_home k <> [] -> ignore_name k = preamble_ignore_name k.
+Proof. exact names_agree. Qed.
+Print Assumptions C15_matlab_names_agree.
+
+(* Full statement (global scope as well) refuted: for a class at global scope the walk compares "::A" and the preamble
+   compares "A".  Spelled "A" the class keeps its classdef and routines and loses its collector; spelled "::A" the
+   generator fails (wrapper.py subscripts None).  Recorded finding. *)
+Definition gclass : iclass :=
+  {| ic_home := []; ic_orig := "A"; ic_templated := false; ic_insts := []; ic_name := "A"; ic_virtual := false; ic_base := None;
+     ic_ctors := []; ic_methods := []; ic_statics := []; ic_dunders := []; ic_props := []; ic_ops := []; ic_enums := [] |}.
+Definition c0 : mcfg := {| m_module := "m"; m_ignore := []; m_boost := false |}.
+Theorem C15_matlab_refuted_global_scope :
+  (* "A": still in the id table, no longer in the preamble *)
+  module_slots (set_ignore c0 ["A"]) [IClass gclass] [IClass gclass] = module_slots c0 [IClass gclass] [IClass gclass] /\
+  preamble_classes (set_ignore c0 ["A"]) [IClass gclass] = [] /\
+  (* "::A": the generator fails *)
+  module_slots (set_ignore c0 ["::A"]) [IClass gclass] [IClass gclass] = None.
+Proof. vm_compute. repeat split; reflexivity. Qed.
+Print Assumptions C15_matlab_refuted_global_scope.
+
+Definition nclass : iclass :=
+  {| ic_home := ["ns"]; ic_orig := "A"; ic_templated := false; ic_insts := []; ic_name := "A"; ic_virtual := true; ic_base := None;
+     ic_ctors := []; ic_methods := []; ic_statics := []; ic_dunders := []; ic_props := []; ic_ops := []; ic_enums := [] |}.
+Example C15_matlab_nonvacuous :
+  let content := [IClass gclass; INamespace "ns" [IClass nclass; IClass gclass]] in
+  rm "ns::A" content = [IClass gclass; INamespace "ns" [IClass gclass]] /\
+  option_map (@length _) (module_slots (set_ignore c0 ["ns::A"]) content content) = Some 4 /\
+  option_map (@length _) (module_slots c0 content content) = Some 7.
+Proof. vm_compute. repeat split; reflexivity. Qed.
+End M.
